@@ -11,6 +11,7 @@ import (
 	"strconv"
 	"strings"
 	"sync"
+	"sync/atomic"
 
 	"github.com/mithrandie/csvq/lib/file"
 	"github.com/mithrandie/csvq/lib/json"
@@ -1205,20 +1206,20 @@ func loadViewFromLTSVFile(ctx context.Context, flags *option.Flags, fp *file.Rea
 }
 
 func readRecordSet(ctx context.Context, reader RecordReader, fileSize int64) (RecordSet, error) {
-	var err error
+	var err, buildErr, readErr error
 	recordSet := make(RecordSet, 0, fileLoadingPreparedRecordSetCap)
 	rowch := make(chan []text.RawText, fileLoadingBuffer)
 	panicCh := make(chan bool, 1)
-	pos := 0
+	var pos int64
 
 	wg := sync.WaitGroup{}
 
 	wg.Add(1)
 	go func() {
 		defer func() {
-			if err == nil {
+			if buildErr == nil {
 				if panicReport := recover(); panicReport != nil {
-					err = NewFatalError(panicReport)
+					buildErr = NewFatalError(panicReport)
 				}
 			}
 			panicCh <- true
@@ -1240,8 +1241,8 @@ func readRecordSet(ctx context.Context, reader RecordReader, fileSize int64) (Re
 				}
 			}
 
-			if 0 < fileSize && 0 < pos && len(recordSet) == fileLoadingPreparedRecordSetCap && int64(pos) < fileSize {
-				l := int((float64(fileSize) / float64(pos)) * fileLoadingPreparedRecordSetCap * 1.2)
+			if p := atomic.LoadInt64(&pos); 0 < fileSize && 0 < p && len(recordSet) == fileLoadingPreparedRecordSetCap && p < fileSize {
+				l := int((float64(fileSize) / float64(p)) * fileLoadingPreparedRecordSetCap * 1.2)
 				newSet := make(RecordSet, fileLoadingPreparedRecordSetCap, l)
 				copy(newSet, recordSet)
 				recordSet = newSet
@@ -1256,9 +1257,9 @@ func readRecordSet(ctx context.Context, reader RecordReader, fileSize int64) (Re
 		panicOccurred := false
 
 		defer func() {
-			if err == nil && !panicOccurred {
+			if readErr == nil && !panicOccurred {
 				if panicReport := recover(); panicReport != nil {
-					err = NewFatalError(panicReport)
+					readErr = NewFatalError(panicReport)
 				}
 			}
 			close(rowch)
@@ -1269,7 +1270,7 @@ func readRecordSet(ctx context.Context, reader RecordReader, fileSize int64) (Re
 
 		for {
 			if i&15 == 0 && ctx.Err() != nil {
-				err = ConvertContextError(ctx.Err())
+				readErr = ConvertContextError(ctx.Err())
 				break
 			}
 
@@ -1278,13 +1279,13 @@ func readRecordSet(ctx context.Context, reader RecordReader, fileSize int64) (Re
 				break
 			}
 			if e != nil {
-				err = e
+				readErr = e
 				break
 			}
 
 			if 0 < fileSize && i < fileLoadingPreparedRecordSetCap {
 				for j := range row {
-					pos += len(row[j])
+					atomic.AddInt64(&pos, int64(len(row[j])))
 				}
 			}
 
@@ -1304,6 +1305,10 @@ func readRecordSet(ctx context.Context, reader RecordReader, fileSize int64) (Re
 
 	wg.Wait()
 	close(panicCh)
+
+	if err = readErr; err == nil {
+		err = buildErr
+	}
 
 	return recordSet, err
 }
@@ -1349,7 +1354,8 @@ func loadViewFromJsonLinesFile(ctx context.Context, flags *option.Flags, fp *fil
 
 	rowch := make(chan txjson.Object, fileLoadingBuffer)
 	panicCh := make(chan bool, 1)
-	pos := 0
+	var pos int64
+	var buildErr, readErr error
 
 	reader := jsonl.NewReader(fp)
 	reader.SetUseInteger(false)
@@ -1359,9 +1365,9 @@ func loadViewFromJsonLinesFile(ctx context.Context, flags *option.Flags, fp *fil
 	wg.Add(1)
 	go func() {
 		defer func() {
-			if err == nil {
+			if buildErr == nil {
 				if panicReport := recover(); panicReport != nil {
-					err = NewFatalError(panicReport)
+					buildErr = NewFatalError(panicReport)
 				}
 			}
 			panicCh <- true
@@ -1381,8 +1387,8 @@ func loadViewFromJsonLinesFile(ctx context.Context, flags *option.Flags, fp *fil
 				}
 			}
 
-			if 0 < fileSize && 0 < pos && len(objectList) == fileLoadingPreparedRecordSetCap && int64(pos) < fileSize {
-				l := int((float64(fileSize) / float64(pos)) * fileLoadingPreparedRecordSetCap * 1.2)
+			if p := atomic.LoadInt64(&pos); 0 < fileSize && 0 < p && len(objectList) == fileLoadingPreparedRecordSetCap && p < fileSize {
+				l := int((float64(fileSize) / float64(p)) * fileLoadingPreparedRecordSetCap * 1.2)
 				newSet := make([]txjson.Object, fileLoadingPreparedRecordSetCap, l)
 				copy(newSet, objectList)
 				objectList = newSet
@@ -1397,9 +1403,9 @@ func loadViewFromJsonLinesFile(ctx context.Context, flags *option.Flags, fp *fil
 		panicOccurred := false
 
 		defer func() {
-			if err == nil && !panicOccurred {
+			if readErr == nil && !panicOccurred {
 				if panicReport := recover(); panicReport != nil {
-					err = NewFatalError(panicReport)
+					readErr = NewFatalError(panicReport)
 				}
 			}
 			close(rowch)
@@ -1409,7 +1415,7 @@ func loadViewFromJsonLinesFile(ctx context.Context, flags *option.Flags, fp *fil
 		i := 0
 		for {
 			if i&15 == 0 && ctx.Err() != nil {
-				err = ConvertContextError(ctx.Err())
+				readErr = ConvertContextError(ctx.Err())
 				break
 			}
 
@@ -1418,30 +1424,30 @@ func loadViewFromJsonLinesFile(ctx context.Context, flags *option.Flags, fp *fil
 				break
 			}
 			if e != nil {
-				err = e
+				readErr = e
 				break
 			}
 
 			rowObj, ok := row.(txjson.Object)
 			if !ok {
-				err = NewJsonLinesStructureError(expr)
+				readErr = NewJsonLinesStructureError(expr)
 				break
 			}
 
 			if jsonQuery != nil {
 				jstruct, e := json.Extract(jsonQuery, rowObj)
 				if e != nil {
-					err = e
+					readErr = e
 					break
 				}
 				jarray, ok := jstruct.(txjson.Array)
 				if !ok || len(jarray) < 1 {
-					err = NewJsonLinesStructureError(expr)
+					readErr = NewJsonLinesStructureError(expr)
 					break
 				}
 				rowObj, ok = jarray[0].(txjson.Object)
 				if !ok {
-					err = NewJsonLinesStructureError(expr)
+					readErr = NewJsonLinesStructureError(expr)
 					break
 				}
 			}
@@ -1451,7 +1457,7 @@ func loadViewFromJsonLinesFile(ctx context.Context, flags *option.Flags, fp *fil
 			}
 
 			if 0 < fileSize && i < fileLoadingPreparedRecordSetCap {
-				pos = reader.Pos()
+				atomic.StoreInt64(&pos, int64(reader.Pos()))
 			}
 
 			select {
@@ -1471,6 +1477,9 @@ func loadViewFromJsonLinesFile(ctx context.Context, flags *option.Flags, fp *fil
 	wg.Wait()
 	close(panicCh)
 
+	if err = readErr; err == nil {
+		err = buildErr
+	}
 	if err != nil {
 		return nil, err
 	}
